@@ -594,7 +594,13 @@ impl<'tcx> Cx<'tcx> {
                                 let mut ops: Vec<&Operand<'tcx>> = Vec::new();
                                 match r {
                                     Rvalue::Use(o, _) => ops.push(o),
-                                    Rvalue::Aggregate(_, os) => {
+                                    Rvalue::Aggregate(kind, os) => {
+                                        if let AggregateKind::Adt(def, vi, _, _, _) = &**kind {
+                                            if os.is_empty() {
+                                                let adt = tcx.adt_def(*def);
+                                                consts.push(s(format!("{}::{}", path(tcx, *def), adt.variant(*vi).name)));
+                                            }
+                                        }
                                         for o in os.iter() {
                                             ops.push(o);
                                         }
